@@ -375,6 +375,9 @@ func isKey(s string, cs *sdcpb.SchemaElem_Container) bool {
 }
 
 func TypedValueToYANGType(tv *sdcpb.TypedValue, schemaObject *sdcpb.SchemaElem) (*sdcpb.TypedValue, error) {
+	if tv == nil {
+		return nil, errors.New("update without a value")
+	}
 	switch tv.Value.(type) {
 	case *sdcpb.TypedValue_AsciiVal:
 		return ConvertToTypedValue(schemaObject, tv.GetAsciiVal(), tv.GetTimestamp())
@@ -394,9 +397,15 @@ func TypedValueToYANGType(tv *sdcpb.TypedValue, schemaObject *sdcpb.SchemaElem) 
 		return ConvertToTypedValue(schemaObject, tv.GetStringVal(), tv.GetTimestamp())
 	case *sdcpb.TypedValue_UintVal:
 		return tv, nil
-	case *sdcpb.TypedValue_JsonIetfVal: // TODO:
-	case *sdcpb.TypedValue_JsonVal: // TODO:
+	case *sdcpb.TypedValue_JsonIetfVal, *sdcpb.TypedValue_JsonVal:
+		// a JSON scalar (or array for a leaf-list) reported for a leaf
+		if schemaObject.GetField() != nil || schemaObject.GetLeaflist() != nil {
+			return ConvertTypedValueToYANGType(schemaObject, tv)
+		}
 	case *sdcpb.TypedValue_LeaflistVal:
+		if schemaObject.GetLeaflist() != nil {
+			return ConvertTypedValueToYANGType(schemaObject, tv)
+		}
 		return tv, nil
 	case *sdcpb.TypedValue_ProtoBytes:
 		return tv, nil
@@ -845,8 +854,15 @@ func convertUpdateTypedValue(_ context.Context, upd *sdcpb.Update, scRsp *sdcpb.
 		}
 		// regular leaf list
 		switch upd.GetValue().Value.(type) {
-		case *sdcpb.TypedValue_LeaflistVal:
-			return upd, nil
+		case *sdcpb.TypedValue_LeaflistVal, *sdcpb.TypedValue_JsonVal, *sdcpb.TypedValue_JsonIetfVal:
+			ctv, err := TypedValueToYANGType(upd.GetValue(), scRsp.GetSchema())
+			if err != nil {
+				return nil, err
+			}
+			return &sdcpb.Update{
+				Path:  upd.GetPath(),
+				Value: ctv,
+			}, nil
 		default:
 			return nil, fmt.Errorf("unexpected leaf-list typedValue: %v", upd.GetValue())
 		}
